@@ -28,7 +28,7 @@ func RuleDelivered(r *Report, p *Program, listener bool) {
 				continue
 			}
 			w := NewWalker(p)
-			w.LoopFuel = 2
+			w.LoopFuel = bound(2, 3)
 			w.Inline = inlineHelpers([]*ssa.Package{p.SSAPkg("uhppote")}, nil)
 			paths := w.Walk(cfn, symbolicArgs(cfn), nil)
 			bad := ""
